@@ -30,8 +30,8 @@ struct HistEngine : Engine {
 	const char * property() const override { return "C05"; }
 	std::string rule() const override {
 		return "plan = 1..40 API calls in one process over <=6 documents and <=4 option sets: fresh-engine conversions (c-string and DString families, convert / convert_to_data), "
-		       "engine slots (create, set language, convert, convert_to_data, parse, parse_substring, export, has_metadata, keys, value, reset, free), noise (CriticMarkup accept/reject, "
-		       "transclusion, manifest, string-family metadata queries), pool init/drain brackets; or one in-process CLI batch run over several files. Every operation gets its own clock and libc-PRNG state; "
+		       "engine slots (create, set language, set text, in-place metadata update, convert, convert_to_data, parse, parse_substring, export, has_metadata, keys, value, reset, free), OPML/iThoughts import sources, documents nested beyond the parser's depth guard, ragged tables, noise (CriticMarkup accept/reject, "
+		       "transclusion, manifest, string-family metadata queries), pool init/drain brackets; or one in-process CLI batch run over several files (7 formats, random option flags). Every operation gets its own clock and libc-PRNG state; in half of the runs fresh heap memory holds history-dependent garbage; "
 		       "oracle = byte equality with the same call as the first library call of a fresh process under the same environment. Distinct = plan hash; non-trivial = >=2 ops and at least one "
 		       "output-producing op issued in an abstract pre-state other than the initial one.";
 	}
